@@ -219,8 +219,9 @@ func c02(c *Ctx) {
 
 	// ---- first pass sources
 	if f := fns["redistribution"]; f != nil {
-		r.Rule("FLOW: every store to quotaNode.runtimeQuota in redistribution takes node.request or a value merged from both node.min and node.guarantee (the effective minimum)")
+		r.Rule("FLOW: every store to quotaNode.runtimeQuota in redistribution takes node.request and/or a value merged from both node.min and node.guarantee (the effective minimum; min never without guarantee), and nothing else")
 		n := 0
+		seenSrc := map[string]bool{}
 		for _, b := range f.Blocks {
 			for _, in := range b.Instrs {
 				st, ok := in.(*ssa.Store)
@@ -230,17 +231,37 @@ func c02(c *Ctx) {
 				if _, fld, _, ok := an.FieldOf(st.Addr); !ok || fld != "runtimeQuota" {
 					continue
 				}
+				// one store may stand for several assignments (the amount chosen first, stored once): the sources are
+				// request and/or the effective minimum - min never without guarantee
 				n++
 				src := map[string]bool{}
-				for _, l := range an.Sources(st.Val, nil) {
-					p := an.Path(l)
-					src[p[strings.LastIndex(p, ".")+1:]] = true
+				var leaves func(v ssa.Value, d int)
+				leaves = func(v ssa.Value, d int) {
+					for _, l := range an.Sources(v, nil) {
+						// the builtin forms of the clamp are merges too
+						if call, isC := l.(*ssa.Call); isC && d < 4 && (an.IsBuiltinCall(call, "max") || an.IsBuiltinCall(call, "min")) {
+							for _, a := range call.Call.Args {
+								leaves(a, d+1)
+							}
+							continue
+						}
+						p := an.Path(l)
+						src[p[strings.LastIndex(p, ".")+1:]] = true
+					}
 				}
-				ok2 := (len(src) == 1 && src["request"]) || (len(src) == 2 && src["min"] && src["guarantee"])
+				leaves(st.Val, 0)
+				ok2 := len(src) > 0 && src["min"] == src["guarantee"]
+				for k := range src {
+					if k != "request" && k != "min" && k != "guarantee" {
+						ok2 = false
+					}
+					seenSrc[k] = true
+				}
 				r.Check(ok2, "FLOW", sprintf("%s/runtime-source#%d", fkey(f), n), c.InstrPos(st), "runtime <- request or max(min, guarantee)", "runtimeQuota is set from "+strings.Join(keysOf(src), "+")+": a sibling with guarantee above min would be cut to its raw min (or given something other than request / effective minimum)")
 			}
 		}
-		r.Floor("FLOW", "runtimeQuota stores in redistribution", n, 3)
+		r.Floor("FLOW", "runtimeQuota stores in redistribution", n, 1)
+		r.Check(seenSrc["request"] && seenSrc["min"] && seenSrc["guarantee"], "FLOW", fkey(f)+"/runtime-sources-complete", c.Pos(f.Pos()), "request and the effective minimum both occur", "the first pass no longer uses both the request and the effective minimum")
 	}
 	if f := fns["iterationForRedistribution"]; f != nil {
 		r.Rule("PATH/FLOW: in iterationForRedistribution the store runtimeQuota = request is dominated by (runtimeQuota < request)==false and the surplus runtimeQuota - request is added to the recycled amount in the same arm; deltas[i] is applied to nodes[i]; the recursion is dominated by recycled > 0")
